@@ -178,6 +178,73 @@ def run(ck):
             return -999, "", str(e)
     with ThreadPoolExecutor(vlib.NJOBS) as ex:
         res = list(ex.map(one, jobs))
+    # ---- one contact phase on adhering tissues placed 1e6 and 1e7 cell sizes from the origin (5 m and 50 m for 5 um cells; no volume
+    # formula is involved in a single phase): the couplings and forces obey the ranges judged on the dumped positions themselves.
+    # A contact decision computed from absolute coordinates instead of differences loses every digit there.
+    far_fails = []; nfar = 0
+    try:
+        import importlib, contact_common as cc_
+        c07_ = importlib.import_module("checks.c07")
+        rng_f = random.Random(ck.seed * 3571 + 16); fcases = []
+        for k_ in range(8 if ck.tier == "quick" else 80):
+            lvl_ = rng_f.choice([1, 2]); edge_ = 2 * cc_.R * math.sin(math.radians(31.7)) / (2 ** lvl_); cut_ = edge_ * rng_f.choice([0.5, 1.0])
+            nc_ = rng_f.choice([2, 3]); gap_ = rng_f.choice([0.2, 0.5, 0.9]) * cut_
+            far_ = rng_f.choice([1e6, 1e7]) * cc_.R
+            sh_ = (far_ * rng_f.choice([-1, 1]), far_ * rng_f.choice([-2, 1.5]), far_ * rng_f.choice([-1, 0.5]))
+            cells0_ = [cc_.sphere(lvl_, cc_.R, (i_ * (2 * cc_.R + gap_), 0.0, 0.0), rng_f) for i_ in range(nc_)]
+            cells_ = [([[q_[k] + sh_[k] for k in range(3)] for q_ in n_], f_) for n_, f_ in cells0_]
+            base_ = dict(kind="far", place="far", classes=[0] * nc_, lmin=edge_ * 0.8, cut_adh=cut_, cut_rep=cut_, ids=list(range(nc_)), level=lvl_, shift=sh_)
+            fcases.append(dict(base_, cells=cells0_, shift=(0.0, 0.0, 0.0))); fcases.append(dict(base_, cells=cells_))
+        # (a short time limit: a range of voxels computed from an absolute coordinate makes the phase walk kilometres of grid)
+        fimpl_ = vlib.build_driver("contact", contact=1)
+        fouts, _fcr = vlib.run_lines_resilient([fimpl_], [cc_.case_line(c_) for c_ in fcases], timeout=90, env={"OMP_NUM_THREADS": "1"}, max_crashes=2)
+        for bad_, info_ in _fcr[:1]:
+            far_fails.append((fcases[bad_], "contact_phase_completes_wherever_the_tissue_is_placed (%s)" % info_[-160:].replace("\n", " ")))
+        ncpl_ref = None
+        for k_, (c_, o_) in enumerate(zip(fcases, fouts)):
+            if o_ is None or o_.startswith("FATAL"):
+                ncpl_ref = None; continue
+            sec_ = o_.split(" # "); st_ = cc_.parse_state(sec_[3])
+            ncpl_ = sum(1 for cell_ in st_ for nd_ in cell_ if nd_[2]); nfrc_ = sum(1 for cell_ in st_ for nd_ in cell_ if any(nd_[1]))
+            if k_ % 2 == 0:
+                ncpl_ref = (ncpl_, nfrc_); continue
+            nfar += 1
+            f_ = c07_.oracle(c_, cc_.parse_in(sec_[1]), st_)
+            if f_:
+                far_fails.append((c_, f_))
+        # ---- facing cubes on a dyadic lattice (exact ties between candidate partners) at the origin and translated by dyadic vectors:
+        # every coordinate and every difference is exact in both placements, so the phase must take the SAME decisions (and produce the same
+        # forces up to the rounding of the closest point, which is rebuilt in absolute coordinates); a decision computed from absolute coordinates rounds differently in the two placements and breaks ties
+        # differently
+        rng_l = random.Random(ck.seed * 3571 + 17); lcases = []
+        for k_ in range(12 if ck.tier == "quick" else 150):
+            c0_ = cc_.gen_lattice_pair(rng_l, tie_two=(k_ % 2 == 0))
+            sh_ = tuple(rng_l.choice([-1, 1]) * rng_l.choice([512.0, 1024.0, 4096.0]) for _ in range(3))       # 13 + 4 fractional bits: cubes of coordinates (the volume formula) are still exact
+            c1_ = dict(c0_, cells=[([[q_[k] + sh_[k] for k in range(3)] for q_ in n_], f_) for n_, f_ in c0_["cells"]], shift=sh_)
+            lcases += [dict(c0_, shift=(0.0, 0.0, 0.0)), c1_]
+        louts, _lcr = cc_.run_cases(lcases, contact=1, san=False)
+        for k_ in range(0, len(lcases), 2):
+            o0_, o1_ = louts[k_], louts[k_ + 1]
+            if not o0_ or not o1_ or o0_.startswith("FATAL") or o1_.startswith("FATAL"):
+                continue
+            nfar += 1
+            s0_ = cc_.parse_state(o0_.split(" # ")[3]); s1_ = cc_.parse_state(o1_.split(" # ")[3]); sh_ = lcases[k_ + 1]["shift"]
+            d_ = None
+            for ci_, (ca_, cb_) in enumerate(zip(s0_, s1_)):
+                for ni_, (na_, nb_) in enumerate(zip(ca_, cb_)):
+                    if na_[2] != nb_[2]:
+                        d_ = "node %d of cell %d is coupled to %s at the origin and to %s after the translation" % (ni_, ci_, na_[2], nb_[2]); break
+                    # (the closest point is rebuilt from barycentric coordinates in absolute coordinates: forces agree up to rounding)
+                    fm_ = max(max(abs(x) for x in na_[1]), max(abs(x) for x in nb_[1]))
+                    if max(abs(x) for x in sh_) <= 2.0 ** 20 and any(abs(x - y) > 1e-7 * fm_ for x, y in zip(na_[1], nb_[1])):
+                        d_ = "node %d of cell %d receives the force %s at the origin and %s after the translation" % (ni_, ci_, na_[1], nb_[1]); break
+                if d_:
+                    break
+            if d_:
+                far_fails.append((lcases[k_ + 1], "contact_decisions_follow_the_geometry (dyadic lattice translated by %s: %s)" % (list(sh_), d_)))
+    except vlib.BuildError as e:
+        ck.notes["contact_phases_far_from_the_origin"] = "driver build failed: " + str(e)[-200:]
+    ck.notes["contact_phases_far_from_the_origin"] = nfar
     byc = {}
     for (ci, k, l), r in zip(jobs, res):
         byc.setdefault(ci, {})[k] = r
@@ -215,6 +282,9 @@ def run(ck):
             continue
         seen.add(key)
         ck.report(dict(reference=cases[ci]["lines"][0], translated=cases[ci]["lines"][k], translation=cases[ci]["ts"][k], kind=cases[ci]["kinds"][k]), oracle=key, key="placement:" + key, what=what)
+    for c_, f_ in far_fails[:1]:
+        ck.report(dict(input=cc_.case_line(c_), placement=list(c_["shift"]), kind="contact phase far from the origin"), oracle="contact_decisions_follow_the_geometry_wherever_it_is_placed",
+                  key="placement:far:" + f_.split(" ")[0], what="a tissue placed %.0e cell sizes from the origin: %s" % (max(abs(x) for x in c_["shift"]) / cc_.R, f_))
     if not ck.violations and not ok:
         ck.report(dict(log=ck.proof_res["log"][-3000:]), unchecked="Properties_C14.vo", what="proof obligations of C14 no longer check")
     ck.cov["trusted_base"] = vlib.TRUSTED_BASE_COMMON
@@ -224,6 +294,9 @@ def run(ck):
 
 def replay(ck, path):
     j = json.load(open(path))
+    if "input" in j["case"]:
+        import importlib; c07_ = importlib.import_module("checks.c07")
+        return c07_.replay(ck, path)
     impl = vlib.build_driver("solver", wrap_clock=True)
     a = vlib.run([impl], input=j["case"]["reference"] + "\n", timeout=1200, env={"OMP_NUM_THREADS": "1"}).stdout
     b = vlib.run([impl], input=j["case"]["translated"] + "\n", timeout=1200, env={"OMP_NUM_THREADS": "1"}).stdout
